@@ -23,6 +23,7 @@ pub fn binary_profile(max_nodes: usize) -> ForestProfile {
         deep_weight: 1,
         types: vals::binary_types(),
         known_classes: true,
+        all_db_classes: false,
         unknown_classes: true,
         alias_names: true,
         unknown_props: true,
